@@ -11,6 +11,8 @@ Decided (clause 3 only: merge commands are never evaluated by the policy; struct
  R3 K2  backstop: VmPolicy::call_rule returns a Bug on Prior::Merge before touching facts or sink.
  R4 K1  convergence map: Block::insert maintains both bounds of the block's max_cut range on every
         insert (a spilled block is looked up through that range).
+ R5 K6  spill offsets come from an append-only allocation cursor (advanced by the bytes written,
+        written nowhere else), the same value goes into the root entry's file_offset.
 Not decided: exactly-once and ancestor-first on arbitrary DAGs and spill paths (value-level:
 depends on convergence counts and skip-list contents)."""
 from rules.core import pat, rt
@@ -121,3 +123,38 @@ def block_summary_rule(F, rep):
                   "every insert either stores `%s` or compares the entry against it (and stores on that comparison's edge) before the push" % fld,
                   "Block::insert does not maintain `%s` on every path (its comparison is skipped on some path to the push): a block's recorded max_cut range "
                   "can exclude one of its entries, the root index then never finds that convergence point after a spill" % fld, ins.site())
+    spill_offset_rule(F, rep)
+
+
+def spill_offset_rule(F, rep):
+    """R5: spilled convergence blocks never overwrite one another: the file offset a block is written at (and
+    recorded in the root index) comes from an allocation cursor kept in the map, which only ever advances by the
+    bytes just written. (Root entries are swap-removed when a block is reloaded, so an offset derived from the
+    root's current length reuses a slot that a live entry still points to.)"""
+    CM = "aranya_runtime::client::convergence_map::ConvergenceMap::"
+    f = F.fn(CM + "spill_lru")
+    wr = [c for c in f.calls if c.name == "write_at"]
+    node = [s for s in f.stmts() if s.rv_kind() == "agg" and s.rv[1].get("adt", "").endswith("NodeEntry")]
+    if len(wr) != 1 or len(node) != 1:
+        rep.anchor_missing("spill_lru: one write_at and one NodeEntry")
+        return
+    og = f.origins(wr[0].args[1], through_calls="*")
+    flds = {t[6:] for t in og if t.startswith("field:")} - {"storage", "root", "blocks", "entries", "0", "1"}
+    cursor = sorted(flds)
+    flds_n = node[0].rv[1]["fields"]
+    og_n = f.origins(node[0].operands()[flds_n.index("file_offset")], through_calls="*") if "file_offset" in flds_n else set()
+    ok = len(cursor) == 1 and "call:len" not in og and "field:root" not in og and ("field:" + cursor[0]) in og_n
+    adv = False
+    only = False
+    if ok:
+        st = f.field_stores(cursor[0])
+        for s in st:
+            o = f.origins(s.operands()[0], through_calls="*") if s.operands() else set()
+            if ("call:checked_add" in o or "call:saturating_add" in o) and ("field:" + cursor[0]) in o and f.dominates(wr[0].bb, s.bb):
+                adv = True
+        writers = {g.path for g in F.fns if not g.derived and g.field_stores(cursor[0]) and "convergence_map" in g.path}
+        only = writers <= {f.path}
+    rep.check(ok and adv and only, "spill_lru|append-only-offsets", "K6 provenance",
+              "the spill offset is the map's allocation cursor `%s`, written to the root entry as file_offset and advanced by checked_add after the write; nothing else writes it" % (cursor[0] if cursor else "?"),
+              "ConvergenceMap::spill_lru no longer takes the spill offset from an allocation cursor that only advances (offset derives from %s): root entries are removed when blocks are "
+              "reloaded, so an offset computed from the root's state can land on a slot a live entry still owns; its convergence points are lost and their fork is braided twice" % sorted(og), wr[0].site())
